@@ -19,7 +19,7 @@ from fractions import Fraction
 
 import numpy as np
 
-from ..kit import cnat, cz, cq, cql, clist, cbool, REPO
+from ..kit import cnat, cz, czl, cq, cql, clist, cbool, REPO
 from ..translate import intvoltables as T
 
 HDR = ("From Coq Require Import ZArith List Bool QArith.\nFrom NV.Generated Require Import IntvolTables.\n"
@@ -720,15 +720,48 @@ def rft_algebra(ck, rft):
                     gv = float("nan")
                 if not close(gv, val, 1e-12):
                     ck.fail("ecquasi/%s/call" % name, "ECquasi %s evaluated at %s gives %s, expected %s" % (name, x, gv, val), dict(rep, x=x))
-    # IntrinsicVolumes.__mul__ is the truncated convolution
+    # IntrinsicVolumes.__mul__ is the (full) convolution; it does not change its operands; exact comparison with the Coq model iv_mul
+    terms, meta = [], []
     for t in range(ck.n(40, 400)):
         a = [int(v) for v in rng.integers(-3, 4, size=int(rng.integers(1, 5)))]
         b = [int(v) for v in rng.integers(-3, 4, size=int(rng.integers(1, 5)))]
-        got = (rft.IntrinsicVolumes(a) * rft.IntrinsicVolumes(b)).mu.tolist()
+        A, B = rft.IntrinsicVolumes(a), rft.IntrinsicVolumes(b)
+        got = (A * B).mu.tolist()
         want = [float(v) for v in fr_poly_mul([Fraction(x) for x in a], [Fraction(x) for x in b])]
         ck.count(("ivmul", tuple(a), tuple(b)), bucket="rft:intrinsic-volumes-mul")
         if got != want:
             ck.fail("intrinsic-volumes-mul", "IntrinsicVolumes(%s) * IntrinsicVolumes(%s) = %s, the convolution is %s" % (a, b, got, want), {"a": a, "b": b})
+        if A.mu.tolist() != [float(v) for v in a] or B.mu.tolist() != [float(v) for v in b] or A.order != len(a) - 1:
+            ck.fail("intrinsic-volumes-mul/operand-mutated", "a * b changed an operand: a.mu %s (was %s), b.mu %s (was %s)" % (A.mu.tolist(), a, B.mu.tolist(), b),
+                    {"a": a, "b": b})
+        if all(float(v) == int(v) for v in got):
+            terms.append("Harness.zlist_eqb (iv_mul %s %s) %s" % (czl(a), czl(b), czl([int(v) for v in got])))
+            meta.append(("mul", a, b, got))
+        # object level: an ECcone with integer regions, evaluated with the default search region; stored regions afterwards
+        srch = [int(v) for v in rng.integers(0, 4, size=int(rng.integers(1, 4)))]
+        srch[0] = 1
+        cone = rft.ECcone(mu=[1], search=srch, product=b)
+        for ncall in (1, 2):
+            cone(np.array([1.5]))
+            after = [cone.mu.tolist(), cone.search.mu.tolist(), cone.product.mu.tolist()]
+            st = "(mkcone [1] %s %s)" % (czl(srch), czl(b))
+            stn = st if ncall == 1 else "(snd (call_src %s None))" % st
+            if all(float(v) == int(v) for r in after for v in r):
+                terms.append("let st' := snd (call_src %s None) in Harness.zlist_eqb (c_mu st') %s && Harness.zlist_eqb (c_search st') %s "
+                             "&& Harness.zlist_eqb (c_product st') %s" % (stn, czl([int(v) for v in after[0]]), czl([int(v) for v in after[1]]),
+                                                                          czl([int(v) for v in after[2]])))
+                meta.append(("call", srch, b, after))
+    if ck.build.ok:
+        res = ck.coq_bools(HDR, terms, name="rftregions")
+        ck.cov["traces_validated_against_impl"] += len(res)
+        for ok, mt in zip(res, meta):
+            if not ok:
+                if mt[0] == "mul":
+                    ck.fail("intrinsic-volumes-mul/model-vs-impl", "model iv_mul %s %s differs from the implementation's %s" % (mt[1], mt[2], mt[3]), {"a": mt[1], "b": mt[2]})
+                else:
+                    ck.fail("eccone-state/model-vs-impl", "ECcone(mu=[1], search=%s, product=%s): stored (mu, search.mu, product.mu) after evaluation are %s, "
+                            "the model (flags read from rft.py) says otherwise" % (mt[1], mt[2], mt[3]), {"search": mt[1], "product": mt[2], "after": mt[3]})
+                break
     ck.section("rft-algebra", ecquasi_cases=n)
 
 
@@ -738,13 +771,22 @@ def rft_densities(ck, rft):
     xs = np.array([0.1, 0.5, 1.0, 1.7, 2.5, 3.3, 4.0, 6.0])
     if ck.thorough():
         xs = np.concatenate([xs, np.linspace(0.05, 9.0, 40)])
-    dfds = [3, 5, 10, 30, 100] if not ck.thorough() else [3, 4, 5, 7, 10, 20, 30, 50, 100, 300]
+    # small, moderate and LARGE finite denominator degrees of freedom (long time series): Gamma((dfd+1)/2) itself overflows from dfd = 343
+    dfds = [3, 5, 10, 30, 40, 100, 343, 400, 1000, 10000, 1000000] if not ck.thorough() else \
+        [3, 4, 5, 7, 10, 20, 30, 40, 50, 100, 300, 343, 344, 400, 1000, 5000, 10000, 100000, 1000000]
     dfns = [1, 2, 3, 5, 8] if not ck.thorough() else [1, 2, 3, 4, 5, 6, 8, 12]
 
-    def chk(sig, what, got, want, rep, tol=1e-9):
+    def chk(sig, what, got, want, rep, tol=1e-9, dfd=0.):
+        """relative 1e-9; differences of log-Gamma values of size ~dfd lose about dfd * 1e-16, which is added for large dfd"""
         ck.count((sig, repr(rep)), bucket="rft:density")
         got, want = np.asarray(got, float), np.asarray(want, float)
-        bad = ~(np.abs(got - want) <= tol * (np.abs(want) + 1e-12) + 1e-14)
+        extra = 4e-15 * float(dfd)
+        if not np.all(np.isfinite(got)):
+            i = int(np.argmin(np.isfinite(got)))
+            ck.fail(sig.split("/")[0] + "/non-finite/" + sig.split("/")[1], "%s: at x=%s got %s (not finite), expected %s" % (what, xs[i], got[i], want[i]),
+                    dict(rep, x=float(xs[i]), got=str(got[i]), expected=float(want[i])))
+            return
+        bad = ~(np.abs(got - want) <= (tol + extra) * (np.abs(want) + 1e-12) + 1e-14 + extra * np.max(np.abs(want)))
         if bad.any():
             i = int(np.argmax(bad))
             ck.fail(sig, "%s: at x=%s got %s, expected %s" % (what, xs[i], got[i], want[i]), dict(rep, x=float(xs[i]), got=float(got[i]), expected=float(want[i])))
@@ -759,13 +801,13 @@ def rft_densities(ck, rft):
     # rho_0 == upper tail probability
     chk("rho0/gaussian", "Gaussian().density(x, 0) vs norm.sf", rft.Gaussian().density(xs, 0), stats.norm.sf(xs), {})
     for m in dfds:
-        chk("rho0/t", "TStat(dfd=%d).density(x, 0) vs t.sf" % m, rft.TStat(dfd=m).density(xs, 0), stats.t.sf(xs, m), {"dfd": m})
+        chk("rho0/t", "TStat(dfd=%d).density(x, 0) vs t.sf" % m, rft.TStat(dfd=m).density(xs, 0), stats.t.sf(xs, m), {"dfd": m}, dfd=m)
     for k in dfns:
         chk("rho0/chi2", "ChiSquared(dfn=%d).density(x, 0) vs chi2.sf" % k, rft.ChiSquared(dfn=k).density(xs, 0), stats.chi2.sf(xs, k), {"dfn": k})
         for m in dfds:
             chk("rho0/F/%s" % ("negative-gamma-in-Q" if neg_gamma(k, m, 0) else "other"),
                 "FStat(dfn=%d, dfd=%d).density(x, 0) vs f.sf" % (k, m), rft.FStat(dfn=k, dfd=m).density(xs, 0),
-                stats.f.sf(xs, k, m), {"dfn": k, "dfd": m})
+                stats.f.sf(xs, k, m), {"dfn": k, "dfd": m}, dfd=m)
     # Gaussian: (2 pi)^-(d+1)/2 He_{d-1}(x) exp(-x^2/2); He by the three-term recurrence (independent of hermitenorm)
     def He(n, x):
         a, b = np.ones_like(x), x
@@ -779,12 +821,12 @@ def rft_densities(ck, rft):
             (2 * np.pi) ** (-(d + 1) / 2.) * He(d - 1, xs) * np.exp(-xs ** 2 / 2), {"dim": d})
     # t field (Worsley 1994), dims 1..3
     for m in dfds:
-        base = (1 + xs ** 2 / m) ** (-(m - 1) / 2.)
-        c2 = np.exp(gammaln((m + 1) / 2.) - gammaln(m / 2.)) / np.sqrt(m / 2.)
+        base = np.exp(-(m - 1) / 2. * np.log1p(xs ** 2 / m))                                  # closed forms evaluated in log space
+        c2 = np.exp(gammaln((m + 1) / 2.) - gammaln(m / 2.) - 0.5 * np.log(m / 2.))
         forms = {1: (2 * np.pi) ** -1 * base, 2: (2 * np.pi) ** -1.5 * c2 * xs * base,
                  3: (2 * np.pi) ** -2 * ((m - 1.) / m * xs ** 2 - 1) * base}
         for d, want in forms.items():
-            chk("density/t", "TStat(dfd=%d).density(x, %d) vs Worsley closed form" % (m, d), rft.TStat(dfd=m).density(xs, d), want, {"dfd": m, "dim": d})
+            chk("density/t", "TStat(dfd=%d).density(x, %d) vs Worsley closed form" % (m, d), rft.TStat(dfd=m).density(xs, d), want, {"dfd": m, "dim": d}, dfd=m)
     # chi-squared field (Worsley 1994), dims 1..3
     for k in dfns:
         c = 1.0 / (2 ** ((k - 2) / 2.) * np.exp(gammaln(k / 2.)))
@@ -800,16 +842,154 @@ def rft_densities(ck, rft):
             u = k * xs / m
             g = np.exp(gammaln((m + k - 1) / 2.) - gammaln(m / 2.) - gammaln(k / 2.))
             g2 = np.exp(gammaln((m + k - 2) / 2.) - gammaln(m / 2.) - gammaln(k / 2.))
-            forms = {1: (2 * np.pi) ** -0.5 * g * np.sqrt(2.) * u ** ((k - 1) / 2.) * (1 + u) ** (-(m + k - 2) / 2.),
-                     2: (2 * np.pi) ** -1 * g2 * u ** ((k - 2) / 2.) * (1 + u) ** (-(m + k - 2) / 2.) * ((m - 1) * u - (k - 1))}
+            pw = np.exp(-(m + k - 2) / 2. * np.log1p(u))
+            forms = {1: (2 * np.pi) ** -0.5 * g * np.sqrt(2.) * u ** ((k - 1) / 2.) * pw,
+                     2: (2 * np.pi) ** -1 * g2 * u ** ((k - 2) / 2.) * pw * ((m - 1) * u - (k - 1))}
             for d, want in forms.items():
                 # structural feature: Q(j, dfd) takes gammaln((m+2-j+2L)/2) at an argument where Gamma is negative (log|Gamma| loses the sign)
                 neg = neg_gamma(k, m, d)
                 chk("density/F/%s" % ("negative-gamma-in-Q" if neg else "other"), "FStat(dfn=%d, dfd=%d).density(x, %d) vs Worsley closed form" % (k, m, d),
-                    rft.FStat(dfn=k, dfd=m).density(xs, d), want, {"dfn": k, "dfd": m, "dim": d})
-    ck.trust.append("EC densities are compared numerically (relative 1e-9) with scipy.stats tail probabilities and the closed forms of "
+                    rft.FStat(dfn=k, dfd=m).density(xs, d), want, {"dfn": k, "dfd": m, "dim": d}, dfd=m)
+    # ---- large finite dfd: every density is finite and converges (first order in 1/dfd) to its dfd = inf limit
+    limits = [("t", lambda v: rft.TStat(dfd=v), lambda: rft.Gaussian(), xs, range(0, 6))]
+    for k in (2, 5):
+        limits.append(("F", (lambda k: lambda v: rft.FStat(dfn=k, dfd=v))(k), (lambda k: lambda: rft.FStat(dfn=k, dfd=np.inf))(k), xs, range(0, 5)))
+        limits.append(("Hotelling", (lambda k: lambda v: rft.Hotelling(k=k, dfd=v))(k), (lambda k: lambda: rft.Hotelling(k=k, dfd=np.inf))(k), xs ** 2, range(0, 4)))
+        limits.append(("Roy", (lambda k: lambda v: rft.Roy(dfn=3, dfd=v, k=k))(k), (lambda k: lambda: rft.Roy(dfn=3, dfd=np.inf, k=k))(k), xs, range(0, 4)))
+        limits.append(("OneSidedF", (lambda k: lambda v: rft.OneSidedF(k + 1, dfd=v))(k), (lambda k: lambda: rft.OneSidedF(k + 1, dfd=np.inf))(k), xs, range(0, 4)))
+    grid = [40, 100, 343, 400, 1000, 10000, 100000, 1000000]
+    for name, mk, mklim, xx, dims in limits:
+        lim = mklim()
+        for d in dims:
+            want = np.asarray(lim.density(xx, d), float)
+            prev = None
+            for v in grid:
+                ck.count(("conv", name, d, v, repr(mk(v).__dict__.get("dfn")), repr(mk(v).__dict__.get("k"))), bucket="rft:large-dfd")
+                got = np.asarray(mk(v).density(xx, d), float)
+                rep = {"statistic": name, "dfd": v, "dim": d, "x": xx.tolist(), "params": {a: getattr(mk(v), a) for a in ("dfn", "k") if hasattr(mk(v), a)}}
+                if not np.all(np.isfinite(got)):
+                    ck.fail("density/non-finite/%s" % name, "%s with dfd=%g: density of order %d is %s" % (name, v, d, got.tolist()), rep)
+                    prev = None
+                    continue
+                err = float(np.max(np.abs(got - want)))
+                if prev is not None and err > 2.0 * prev[1] * prev[0] / v + 1e-8 * (1 + float(np.max(np.abs(want)))):
+                    ck.fail("density/large-dfd-limit/%s" % name, "%s density of order %d: distance to the dfd=inf limit is %.3g at dfd=%g but %.3g at dfd=%g "
+                            "(no 1/dfd convergence)" % (name, d, prev[1], prev[0], err, v), rep)
+                prev = (v, err)
+            if prev is not None and prev[1] > 1e-4 * (1 + float(np.max(np.abs(want)))):
+                ck.fail("density/large-dfd-limit/%s" % name, "%s density of order %d at dfd=%g is still %.3g away from the dfd=inf limit" % (name, d, prev[0], prev[1]),
+                        {"statistic": name, "dim": d})
+    ck.trust.append("EC densities are compared numerically (relative 1e-9 with scipy.stats tail probabilities and the closed forms of "
                     "Worsley (1994) for Gaussian/t/chi2/F fields; scipy.special.gammaln/hermitenorm, scipy.stats and np.poly1d are oracles")
     ck.section("rft-densities", thresholds=len(xs), dfd=dfds, dfn=dfns)
+
+
+def rft_repeat(ck, rft):
+    """Every statistic object is a pure function of (x, search): evaluated several times (default search, explicit search,
+    density, pvalue, interleaved thresholds) it returns identical results, equal to those of a freshly built object, and
+    its stored regions (mu, search.mu, product.mu) are not changed by evaluation.  rho_0 is the tail probability."""
+    from scipy import stats
+    x1 = np.array([2.0, 6.0, 12.0, 20.0])
+    x2 = np.array([0.7, 3.1, 9.5, 30.0])
+    sregion = [1., 4., 6., 4.]
+    inf = np.inf
+
+    def hot_tail(k, v):
+        return (lambda x: stats.f.sf(x * (v - k + 1.) / (v * k), k, v - k + 1)) if np.isfinite(v) else (lambda x: stats.chi2.sf(x, k))
+
+    cases = [("Gaussian", lambda **kw: rft.Gaussian(**kw), lambda x: stats.norm.sf(x), {})]
+    for v in ([5, 40, 1000, inf] if not ck.thorough() else [3, 5, 12, 40, 343, 1000, 1e5, inf]):
+        cases.append(("TStat", (lambda v: lambda **kw: rft.TStat(dfd=v, **kw))(v), (lambda v: lambda x: stats.t.sf(x, v) if np.isfinite(v) else stats.norm.sf(x))(v), {"dfd": v}))
+        for k in ((2, 5) if not ck.thorough() else (1, 2, 3, 5, 8)):
+            cases.append(("FStat", (lambda k, v: lambda **kw: rft.FStat(dfn=k, dfd=v, **kw))(k, v),
+                          (lambda k, v: lambda x: stats.f.sf(x, k, v) if np.isfinite(v) else stats.chi2.sf(k * x, k))(k, v), {"dfn": k, "dfd": v}))
+            if not np.isfinite(v) or v - k + 1 > 0:
+                cases.append(("Hotelling", (lambda k, v: lambda **kw: rft.Hotelling(k=k, dfd=v, **kw))(k, v), hot_tail(k, v), {"k": k, "dfd": v}))
+            # Roy with k = 1: the product region is the 0-sphere (two points): twice the F tail
+            cases.append(("Roy", (lambda k, v: lambda **kw: rft.Roy(dfn=k, dfd=v, k=1, **kw))(k, v),
+                          (lambda k, v: lambda x: 2 * (stats.f.sf(x, k, v) if np.isfinite(v) else stats.chi2.sf(k * x, k)))(k, v), {"dfn": k, "dfd": v, "k": 1}))
+            cases.append(("Roy", (lambda k, v: lambda **kw: rft.Roy(dfn=k, dfd=v, k=3, **kw))(k, v), None, {"dfn": k, "dfd": v, "k": 3}))
+            cases.append(("OneSidedF", (lambda k, v: lambda **kw: rft.OneSidedF(k + 1, dfd=v, **kw))(k, v), None, {"dfn": k + 1, "dfd": v}))
+    for k in (1, 2, 3, 5):
+        cases.append(("ChiSquared", (lambda k: lambda **kw: rft.ChiSquared(dfn=k, **kw))(k), (lambda k: lambda x: stats.chi2.sf(x, k))(k), {"dfn": k}))
+        # a Gaussian linear form maximised over the unit sphere of R^k is |Z|: chi_k tail
+        cases.append(("MultilinearForm", (lambda k: lambda **kw: rft.MultilinearForm(k, **kw))(k), (lambda k: lambda x: stats.chi.sf(x, k))(k), {"dims": [k]}))
+        cases.append(("ChiBarSquared", (lambda k: lambda **kw: rft.ChiBarSquared(dfn=k, **kw))(k), None, {"dfn": k}))
+    cases.append(("MultilinearForm", lambda **kw: rft.MultilinearForm(2, 3, **kw), None, {"dims": [2, 3]}))
+    cases.append(("MultilinearForm", lambda **kw: rft.MultilinearForm(2, 2, 4, **kw), None, {"dims": [2, 2, 4]}))
+
+    def snap(o):
+        return {"mu": np.array(getattr(o.mu, "mu", o.mu), float).copy(), "order": int(o.order), "search.mu": np.array(o.search.mu, float).copy(),
+                "product.mu": np.array(o.product.mu, float).copy()}
+
+    def same(a, b):
+        return isinstance(a, np.ndarray) and isinstance(b, np.ndarray) and a.shape == b.shape and bool(np.all((a == b) | (np.isnan(a) & np.isnan(b))))
+
+    n_obj = 0
+    for cname, mk, tail, params in cases:
+        for fixed in (None, sregion):
+            kw = {} if fixed is None else {"search": fixed}
+            rep = {"class": cname, "params": params, "constructor_search": fixed, "x": x1.tolist()}
+            ck.count(("repeat", cname, repr(params), fixed is None), bucket="rft:repeat")
+            n_obj += 1
+
+            def F(msg, what):
+                ck.fail("rft-repeat/%s/%s" % (what, cname), "%s(%s%s): %s" % (cname, params, "" if fixed is None else ", search=%s" % fixed, msg), rep)
+            try:
+                o = mk(**kw)
+                before = snap(o)
+                A = [np.asarray(o(x1), float)]                 # first evaluation
+                A.append(np.asarray(o(x1), float))             # again
+                B = np.asarray(o(x2), float)                   # other thresholds in between
+                A.append(np.asarray(o(x1), float))
+                D0 = np.asarray(o.density(x1, 0), float)
+                A.append(np.asarray(o(x1), float))
+                S1 = np.asarray(o(x1, search=[1., 2., 3.]), float)
+                A.append(np.asarray(o(x1), float))
+                S2 = np.asarray(o(x1, search=[1., 2., 3.]), float)
+                A.append(np.asarray(o.pvalue(x1), float))
+                D2a = np.asarray(o.density(x1, 2), float)
+                D2b = np.asarray(o.density(x1, 2), float)
+                A.append(np.asarray(o(x1), float))
+                after = snap(o)
+                fresh1 = np.asarray(mk(**kw)(x1), float)
+                fresh2 = np.asarray(mk(**kw)(x2), float)
+                dens = [np.asarray(mk(**kw).density(x1, i), float) for i in range(4)]
+            except Exception as e:  # noqa
+                F("evaluation raised %s: %s" % (type(e).__name__, e), "raises")
+                continue
+            for i, a in enumerate(A[1:], start=2):
+                if not same(a, A[0]):
+                    F("default-search evaluation #%d returns %s, the first evaluation of the same object returned %s (product region %s)" % (
+                        i, a.tolist(), A[0].tolist(), before["product.mu"].tolist()), "repeated-call-differs")
+                    break
+            if not same(A[0], fresh1) or not same(B, fresh2):
+                F("evaluation differs from that of a freshly constructed object: %s vs %s" % (B.tolist(), fresh2.tolist()), "repeated-call-differs")
+            if not same(S1, S2):
+                F("explicit search=[1,2,3]: second evaluation %s, first %s" % (S2.tolist(), S1.tolist()), "repeated-call-differs")
+            if not same(D2a, D2b):
+                F("density(x, 2): second evaluation %s, first %s" % (D2b.tolist(), D2a.tolist()), "repeated-call-differs")
+            for key in before:
+                if not same(np.atleast_1d(np.asarray(before[key], float)), np.atleast_1d(np.asarray(after[key], float))):
+                    F("stored region %s changed from %s to %s by evaluating the object" % (key, np.asarray(before[key]).tolist(), np.asarray(after[key]).tolist()),
+                      "stored-region-mutated")
+            if not np.all(np.isfinite(A[0])) or not np.all(np.isfinite(S1)) or not all(np.all(np.isfinite(dd)) for dd in dens):
+                F("non-finite values: call %s, densities %s" % (A[0].tolist(), [dd.tolist() for dd in dens]), "non-finite")
+                continue
+            # expected EC is linear in the search region: sum_i density(x, i) * search[i]
+            lin = sum(dens[i] * c for i, c in enumerate([1., 2., 3.]))
+            if not close(S1, lin, 1e-9):
+                F("o(x, search=[1,2,3]) = %s but sum_i density(x,i)*search[i] = %s" % (S1.tolist(), lin.tolist()), "linearity")
+            want = dens[0] if fixed is None else sum(dens[i] * c for i, c in enumerate(fixed))
+            if not close(A[0], want, 1e-9):
+                F("o(x) = %s but sum_i density(x,i)*search[i] over the constructor's search region = %s" % (A[0].tolist(), np.asarray(want).tolist()), "linearity")
+            if fixed is None and not close(D0, A[0], 1e-12):
+                F("density(x, 0) = %s but o(x) = %s" % (D0.tolist(), A[0].tolist()), "density0-vs-call")
+            if tail is not None:
+                tv = np.asarray(tail(x1), float)
+                if not np.all(np.abs(dens[0] - tv) <= 1e-8 * np.abs(tv) + 1e-13):
+                    F("rho_0 = %s, upper tail probability = %s" % (dens[0].tolist(), tv.tolist()), "tail")
+    ck.section("rft-repeat", objects=n_obj, calls_per_object=13)
 
 
 def run(ck):
@@ -831,3 +1011,4 @@ def run(ck):
     from nipy.algorithms.statistics import rft
     rft_algebra(ck, rft)
     rft_densities(ck, rft)
+    rft_repeat(ck, rft)
